@@ -151,6 +151,18 @@ func PoolSequential(pw *poolWriter, rng *rand.Rand, ty string, ch, l, k, steps, 
 				v.SetSample(i, x)
 				e.Kind, e.A = "SetSample", []int64{int64(i), x}
 			case 2:
+				if isFloatTy(ty) && rng.Intn(2) == 0 {
+					n := rng.Intn(v.Len() + 2)
+					fs := make([]float64, n)
+					in := make([]int64, n)
+					for i := range fs {
+						fs[i] = oddFloats[rng.Intn(len(oddFloats))]
+						in[i] = codeOf(fs[i])
+					}
+					v.WriteF64(fs)
+					e.Kind, e.A = "Write", in
+					break
+				}
 				in := stamps(rng.Intn(v.Len() + 2))
 				v.Write(KindOf(ty), in)
 				e.Kind, e.A = "Write", in
